@@ -34,8 +34,11 @@ def lattices(draw, max_n=12, flags=True, min_cells=1, spacings=SPACINGS):
     # anchor = integer / 10^d inside the geographic range, leaving room for the extent
     lo_x, hi_x = -180.0, 180.0 - (nx + 1) * fdh
     lo_y, hi_y = -90.0, 90.0 - (ny + 1) * fdh
-    lon0 = draw(st.integers(int(lo_x * 10**d), int(hi_x * 10**d)))
-    lat0 = draw(st.integers(int(lo_y * 10**d), int(hi_y * 10**d)))
+    # (a third of the anchors lies within 3 degrees of the prime meridian / the equator: one axis with coordinates near zero next
+    #  to one with large, possibly negative, coordinates is where inferred spacings and tolerances taken from the 'other' axis show)
+    near = st.integers(-3 * 10**d, 3 * 10**d)
+    lon0 = draw(st.one_of(st.integers(int(lo_x * 10**d), int(hi_x * 10**d)), st.integers(int(lo_x * 10**d), int(hi_x * 10**d)), near))
+    lat0 = draw(st.one_of(st.integers(int(lo_y * 10**d), int(hi_y * 10**d)), st.integers(int(lo_y * 10**d), int(hi_y * 10**d)), near))
     allc = [[i, j] for i in range(nx) for j in range(ny)]
     shape = draw(st.sampled_from(["full", "full", "holes", "holes", "sparse"]))
     if shape == "full" or len(allc) == 1:
